@@ -65,45 +65,52 @@ Theorem pool_nest_count ho wo c ph pw : 0 <= ho -> 0 <= wo -> 0 <= c -> 0 <= ph 
   Z.of_nat (length (pool_nest ho wo c ph pw)) = ho * wo * c * ph * pw.
 Proof. intros. unfold pool_nest. rewrite !prod_len, !range_length by assumption. ring. Qed.
 
-(* ---------- the formulas of get_operation_count (qtools_util.py:115-224) ---------- *)
-Definition oc_conv2d (ho wo co kh kw ci : Z) : Z := ho * wo * co * kh * kw * ci.   (* ci = ALL input channels *)
+(* ---------- the formulas of get_operation_count (qtools_util.py:115-230) ---------- *)
+(* conv2d: channels_i // groups input channels per output channel *)
+Definition oc_conv2d (ho wo co kh kw ci g : Z) : Z := ho * wo * co * kh * kw * (ci / g).
 Definition oc_conv1d (to co k ci : Z) : Z := to * co * k * ci.
-Definition oc_depthwise (kh kw ho wo ci : Z) : Z := kh * kw * ho * wo * ci.
+(* depthwise: channels_o = channels_i * depth_multiplier *)
+Definition oc_depthwise (kh kw ho wo cout : Z) : Z := kh * kw * ho * wo * cout.
 Definition oc_dense (ni no : Z) : Z := ni * no.
-Definition oc_pool (co ph pw : Z) : Z := co * (ph * pw).
+(* pooling: one window per output position and channel *)
+Definition oc_pool (npos co ph pw : Z) : Z := npos * co * (ph * pw).
 Definition oc_elementwise (dims : list Z) : Z := fold_right Z.mul 1 dims.
 
-Theorem conv2d_count_is_nest ho wo co kh kw ci :
-  0 <= ho -> 0 <= wo -> 0 <= co -> 0 <= kh -> 0 <= kw -> 0 <= ci ->
-  oc_conv2d ho wo co kh kw ci = Z.of_nat (length (conv2d_nest ho wo co kh kw ci)).
-Proof. intros. rewrite conv2d_nest_count by assumption. reflexivity. Qed.
+Theorem conv2d_count_is_nest ho wo co kh kw ci g :
+  0 <= ho -> 0 <= wo -> 0 <= co -> 0 <= kh -> 0 <= kw -> 0 <= ci -> 0 < g ->
+  oc_conv2d ho wo co kh kw ci g = Z.of_nat (length (conv2d_nest ho wo co kh kw (ci / g))).
+Proof. intros. rewrite conv2d_nest_count; try assumption; [reflexivity | apply Z.div_pos; lia]. Qed.
 Theorem conv1d_count_is_nest to co k ci : 0 <= to -> 0 <= co -> 0 <= k -> 0 <= ci ->
   oc_conv1d to co k ci = Z.of_nat (length (conv1d_nest to co k ci)).
 Proof. intros. rewrite conv1d_nest_count by assumption. reflexivity. Qed.
 Theorem dense_count_is_nest ni no : 0 <= ni -> 0 <= no ->
   oc_dense ni no = Z.of_nat (length (dense_nest ni no)).
 Proof. intros. rewrite dense_nest_count by assumption. reflexivity. Qed.
-(* depthwise: equal to the nest only for depth_multiplier = 1 *)
-Theorem depthwise_count_is_nest_dm1 ho wo ci kh kw :
-  0 <= ho -> 0 <= wo -> 0 <= ci -> 0 <= kh -> 0 <= kw ->
-  oc_depthwise kh kw ho wo ci = Z.of_nat (length (depthwise_nest ho wo ci 1 kh kw)).
+(* depthwise: every depth multiplier *)
+Theorem depthwise_count_is_nest ho wo ci dm kh kw :
+  0 <= ho -> 0 <= wo -> 0 <= ci -> 0 <= dm -> 0 <= kh -> 0 <= kw ->
+  oc_depthwise kh kw ho wo (ci * dm) = Z.of_nat (length (depthwise_nest ho wo ci dm kh kw)).
 Proof. intros. rewrite depthwise_nest_count by lia. unfold oc_depthwise. ring. Qed.
-(* pooling: equal to the nest only when there is a single output position (global pooling) *)
-Theorem pool_count_is_nest_global c ph pw : 0 <= c -> 0 <= ph -> 0 <= pw ->
-  oc_pool c ph pw = Z.of_nat (length (pool_nest 1 1 c ph pw)).
+(* pooling: every number of output positions *)
+Theorem pool_count_is_nest ho wo c ph pw : 0 <= ho -> 0 <= wo -> 0 <= c -> 0 <= ph -> 0 <= pw ->
+  oc_pool (ho * wo) c ph pw = Z.of_nat (length (pool_nest ho wo c ph pw)).
 Proof. intros. rewrite pool_nest_count by lia. unfold oc_pool. ring. Qed.
 
-(* refuted parts of the full statement (witnesses replayed on the implementation) *)
-Theorem grouped_conv_count_refuted :
+(* the formulas before the three fix: commits (all input channels; channels_i; a single window), kept with the
+   witnesses that were replayed on the implementation *)
+Definition oc_conv2d_old (ho wo co kh kw ci : Z) : Z := ho * wo * co * kh * kw * ci.
+Definition oc_depthwise_old (kh kw ho wo ci : Z) : Z := kh * kw * ho * wo * ci.
+Definition oc_pool_old (co ph pw : Z) : Z := co * (ph * pw).
+Theorem grouped_conv_count_old_refuted :
   exists ho wo co kh kw ci g, 1 < g /\ ci mod g = 0 /\
-    oc_conv2d ho wo co kh kw ci <> Z.of_nat (length (conv2d_nest ho wo co kh kw (ci / g))).
+    oc_conv2d_old ho wo co kh kw ci <> Z.of_nat (length (conv2d_nest ho wo co kh kw (ci / g))).
 Proof. exists 6, 6, 4, 3, 3, 4, 2. vm_compute. split; [reflexivity|]. split; [reflexivity|]. discriminate. Qed.
-Theorem depthwise_multiplier_count_refuted :
+Theorem depthwise_multiplier_count_old_refuted :
   exists ho wo ci dm kh kw, 1 < dm /\
-    oc_depthwise kh kw ho wo ci <> Z.of_nat (length (depthwise_nest ho wo ci dm kh kw)).
+    oc_depthwise_old kh kw ho wo ci <> Z.of_nat (length (depthwise_nest ho wo ci dm kh kw)).
 Proof. exists 4, 4, 2, 2, 3, 3. vm_compute. split; [reflexivity|]. discriminate. Qed.
-Theorem pooling_count_refuted :
-  exists ho wo c ph pw, 1 < ho * wo /\ oc_pool c ph pw <> Z.of_nat (length (pool_nest ho wo c ph pw)).
+Theorem pooling_count_old_refuted :
+  exists ho wo c ph pw, 1 < ho * wo /\ oc_pool_old c ph pw <> Z.of_nat (length (pool_nest ho wo c ph pw)).
 Proof. exists 2, 2, 3, 2, 2. vm_compute. split; [reflexivity|]. discriminate. Qed.
 
 (* ---------- energy report (qenergy.py:200-340, run_qtools.py:101-126) ---------- *)
